@@ -294,7 +294,19 @@ def store_object(ctx, ckey, attr, table):
     else:
         attrs.update(path=PROJ + "/.gwf/spec-hashes.json")
     attrs[attr] = dict(table)
-    return ci, make_instance(ctx, ci, "store", **attrs)
+    obj = make_instance(ctx, ci, "store", **attrs)
+    # auxiliary fields whose default is computed by a decorated method (a snapshot of the loaded table, a fingerprint): as attrs does, in field order, after the table
+    interp = PureInterp(ctx)
+    for fname, _ann, _value in ci.fields:
+        if fname in attrs:
+            continue
+        for m in ci.methods.values():
+            if any((d or "").endswith(f"{fname}.default") for d in m.decorator_names()):
+                try:
+                    setattr(obj, fname, interp.call(m, (), {}, self_obj=obj))
+                except (Raised, Unsupported):
+                    pass
+    return ci, obj
 
 
 def eval_close(ctx, ckey, attr, table, script=(), disk=None):
@@ -391,6 +403,156 @@ def eval_call_failure(ctx, err_text="sbatch: error: Batch job submission failed"
             except Unsupported as exc:
                 out[(rc != 0, err)] = f"<{exc}>"
     return out, fn
+
+
+STDIN_SCRIPT = "#!/bin/bash\ncd '/data/søren/projekt'\ngrep 'Ærø µ — 日本' in.txt > 'résumé.txt'\n"
+
+
+def eval_call_stdin(ctx):
+    """The bytes that reach the scheduler command's standard input when backends.utils.call is given a script with non-ASCII text (directory and file names, patterns),
+    by the documented rules of subprocess (text mode if text/universal_newlines/encoding/errors is given; the locale's encoding - UTF-8 on the modelled machine - by default).
+    -> ("bytes", b"...") | ("raised", kind) | ("unsupported", why)"""
+    fn = ctx.index.func("gwf.backends.utils:call")
+    got = {"kw": None, "stdin": None}
+
+    def to_bytes(data, kw):
+        text = bool(kw.get("text") or kw.get("universal_newlines") or kw.get("encoding") or kw.get("errors"))
+        if data is None:
+            return b""
+        if text:
+            if not isinstance(data, str):
+                raise Raised("AttributeError", "'bytes' object has no attribute 'encode' (bytes written to a text-mode pipe)")
+            try:
+                return data.encode(kw.get("encoding") or "utf-8", kw.get("errors") or "strict")
+            except UnicodeEncodeError as exc:
+                raise Raised("UnicodeEncodeError", str(exc))
+            except LookupError as exc:
+                raise Raised("LookupError", str(exc))
+        if isinstance(data, str):
+            raise Raised("TypeError", "a bytes-like object is required, not 'str'")
+        return bytes(data)
+    pipe = Obj("pipe", written=[])
+    proc = Obj("proc", returncode=0, stdin=pipe)
+
+    def h_popen(cmd, *a, **k):
+        got["kw"] = k
+        return proc
+
+    def h_comm(recv, input=None, *a, **k):
+        got["stdin"] = b"".join(pipe.written) + to_bytes(input, got["kw"] or {})
+        text = bool((got["kw"] or {}).get("text") or (got["kw"] or {}).get("universal_newlines") or (got["kw"] or {}).get("encoding"))
+        return ("4242\n", "") if text else (b"4242\n", b"")
+
+    def h_run(cmd, *a, input=None, **k):
+        got["kw"] = k
+        got["stdin"] = to_bytes(input, k)
+        text = bool(k.get("text") or k.get("universal_newlines") or k.get("encoding"))
+        return Obj("completed", returncode=0, stdout="4242\n" if text else b"4242\n", stderr="" if text else b"", args=cmd)
+    hooks = {"shutil.which": lambda name: "/usr/bin/" + str(name), "subprocess.Popen": h_popen, "subprocess.run": h_run, "attr:communicate": h_comm,
+             "attr:write": lambda recv, data: pipe.written.append(to_bytes(data, got["kw"] or {})), "attr:close": lambda recv: None, "attr:flush": lambda recv: None,
+             "attr:wait": lambda recv, *a, **k: 0, "attr:poll": lambda recv: 0}
+    try:
+        PureInterp(ctx, hooks=hooks).call(fn, ("sbatch", "--parsable"), {"input": STDIN_SCRIPT})
+    except Raised as exc:
+        return ("raised", f"{exc.kind}: {exc.detail}"[:200]), fn
+    except Unsupported as exc:
+        return ("unsupported", str(exc)), fn
+    if got["stdin"] is None:
+        got["stdin"] = b"".join(pipe.written)
+    return ("bytes", got["stdin"]), fn
+
+
+def eval_call_once(ctx):
+    """backends.utils.call for a SUBMIT command in two awkward situations; returns a list of differences.
+    (1) the scheduler's reply is lost ('Socket timed out on send/recv operation', exit 1): the job may have been queued all the same, so the command must be started exactly
+        once and the failure reported - a retry would queue a second copy;
+    (2) the command does not answer within whatever time limit call() sets: the child must be killed and reaped before the failure is reported, or it may still be accepted
+        after gwf has given up (an untracked job)."""
+    fn = ctx.index.func("gwf.backends.utils:call")
+    diffs = []
+    # (1)
+    starts = []
+    proc = Obj("proc", returncode=1)
+    err = "sbatch: error: Batch job submission failed: Socket timed out on send/recv operation"
+
+    def h_popen(cmd, *a, **k):
+        starts.append(cmd)
+        return proc
+
+    def h_run(cmd, *a, **k):
+        starts.append(cmd)
+        if k.get("check"):
+            raise Raised("CalledProcessError", "non-zero exit status 1")
+        return Obj("completed", returncode=1, stdout="", stderr=err, args=cmd)
+    hooks = {"shutil.which": lambda name: "/usr/bin/" + str(name), "subprocess.Popen": h_popen, "subprocess.run": h_run, "attr:communicate": lambda recv, *a, **k: ("", err),
+             "time.sleep": lambda *a: None, "attr:wait": lambda recv, *a, **k: 1, "attr:poll": lambda recv: 1}
+    try:
+        res = PureInterp(ctx, hooks=hooks).call(fn, ("sbatch", "--parsable"), {"input": tok("SCRIPT")})
+        diffs.append(f"a submit command that fails with 'Socket timed out on send/recv operation' makes call() return {res!r} instead of raising")
+    except Raised:
+        pass
+    except Unsupported as exc:
+        return None, str(exc)
+    if len(starts) > 1:
+        diffs.append(f"after a submit command failed with a lost reply ('Socket timed out on send/recv operation') call() starts the command {len(starts)} times: the first attempt "
+                     "may have been queued, so the retry queues a second, separately tracked copy of the job")
+    # (2)
+    ev = []
+    proc2 = Obj("proc", returncode=None)
+
+    def h_comm(recv, *a, **k):
+        t = k.get("timeout", a[1] if len(a) > 1 else None)
+        if t is not None and not any(e == "expired" for e in ev):
+            ev.append("expired")
+            raise Raised("TimeoutExpired", "timed out")
+        ev.append("communicate")
+        return ("4242\n", "")
+
+    def h_run2(cmd, *a, **k):
+        if k.get("timeout") is not None:
+            ev.append("expired")
+            ev.append("kill")       # subprocess.run kills and reaps the child itself before re-raising
+            ev.append("wait")
+            raise Raised("TimeoutExpired", "timed out")
+        return Obj("completed", returncode=0, stdout="4242\n", stderr="", args=cmd)
+    hooks2 = {"shutil.which": lambda name: "/usr/bin/" + str(name), "subprocess.Popen": lambda *a, **k: proc2, "subprocess.run": h_run2, "attr:communicate": h_comm,
+              "attr:kill": lambda recv, *a: ev.append("kill"), "attr:terminate": lambda recv, *a: ev.append("kill"), "attr:wait": lambda recv, *a, **k: ev.append("wait") or 0,
+              "attr:poll": lambda recv: None, "time.sleep": lambda *a: None}
+    try:
+        PureInterp(ctx, hooks=hooks2).call(fn, ("sbatch", "--parsable"), {"input": tok("SCRIPT")})
+        raised = False
+    except Raised:
+        raised = True
+    except Unsupported as exc:
+        return None, str(exc)
+    if "expired" in ev:
+        after = ev[ev.index("expired") + 1:]
+        if "kill" not in after or not ("wait" in after or "communicate" in after):
+            diffs.append("call() gives a submit command a time limit and, when it expires, reports the failure without killing and reaping the child: the command may still be "
+                         "accepted by the scheduler after gwf has given up, leaving a job no state file knows about (the next run submits the target again)")
+    return diffs, None
+
+
+def eval_garbled_query(ctx, mod, cname):
+    """<Ops>.get_job_states when the query command exits 0 with output cut off half-way (busy controller): must raise, never an (empty) state map."""
+    ci = ctx.index.cls(f"{mod}:{cname}")
+    m = ctx.index.method(ci, "get_job_states")
+    garbage = {"qstat": "<?xml version='1.0'?><job_info><queue_info><job_list state='running'><JB_job_num", "squeue": "1;R\n2", "sacct": "1|COMPLETED\n2", "bjobs": "RU"}
+    seen = []
+
+    def h_call(exe, *a, **k):
+        seen.append(exe)
+        return garbage.get(exe, "")
+    interp = PureInterp(ctx, hooks={"gwf.backends.utils.call": h_call})
+    interp.max_depth = 10
+    obj = Obj("ops", working_dir=PROJ, log_mode="full", accounting_enabled=True, target_defaults={}, **{"__class__": ci})
+    try:
+        res = interp.call(m, (["1", "2"],), {}, self_obj=obj)
+        return ("returned", res, seen), m
+    except Raised as exc:
+        return ("raised", exc.kind, seen), m
+    except Unsupported as exc:
+        return ("unsupported", str(exc), seen), m
 
 
 def eval_cancel_job(ctx, mod, cname):
@@ -1736,6 +1898,10 @@ TOUCH_PROJECT2 = {
 }
 
 
+# outputs that are symbolic links into shared storage (`ln -s /shared/ref.fa data/ref.fa`); they exist before the command runs
+TOUCH_LINKS = ("/p/s1", "/p/genome.fa")
+
+
 class OSet(set):
     """A set that iterates in a chosen order (real sets of targets iterate in address order, i.e. arbitrarily: the witnesses fix it, and try it both ways)."""
 
@@ -1885,37 +2051,88 @@ def eval_touch_command(ctx, targets=(), project=None, reverse=False, disk="empty
         return depth_of[n_]
     mtime = {p_: float(depth(n_)) for n_ in proj for p_ in proj[n_][1]}
 
+    from ..symeval import HookDecline, CLOCK, ClassInfo, MODEL_CLOCK
+
+    def tick():
+        MODEL_CLOCK[0] += 1.0
+        return MODEL_CLOCK[0]
+    # the disk: which paths exist (with their modification time), and which of them are symbolic links (to a file outside the project that exists)
+    links = set(TOUCH_LINKS) & set(mtime)
+    exists = dict(mtime) if disk == "uptodate" else {p_: 1.0 for p_ in links}
+
     def h_exists(recv, p_, *a):
-        return disk == "uptodate" and str(p_) in mtime
+        return str(p_) in exists
 
     def h_changed(recv, p_, *a):
-        if disk == "uptodate" and str(p_) in mtime:
-            return mtime[str(p_)]
+        if str(p_) in exists:
+            return exists[str(p_)]
         raise Raised("FileNotFoundError", str(p_))
+
+    def library_recv(recv, name):
+        cls_ = recv.__dict__["_attrs"].get("__class__") if isinstance(recv, Obj) else None
+        if isinstance(cls_, ClassInfo) and ctx.index.method(cls_, name) is not None:
+            raise HookDecline(name)
+
+    def h_touch(recv, mode=0o666, exist_ok=True, **k):
+        library_recv(recv, "touch")
+        p_ = str(recv)
+        if p_ in exists and exist_ok is False:
+            raise Raised("FileExistsError", p_)
+        exists[p_] = tick()
+        events.append(("touch", p_, {"exist_ok": exist_ok, "time": exists[p_]}))
+
+    def h_utime(p_, times=None, *, ns=None, follow_symlinks=True, **k):
+        p_ = str(p_)
+        if p_ not in exists:
+            raise Raised("FileNotFoundError", p_)       # os.utime never creates a file
+        when = tick() if times is None and ns is None else (times[1] if times is not None else ns[1] / 1e9)
+        if follow_symlinks is False and p_ in links:
+            events.append(("stamp-link", p_, {"time": when}))   # the link's own inode: os.stat (what the scheduler reads) does not see it
+            return None
+        exists[p_] = when
+        events.append(("touch", p_, {"time": when}))
+
+    def h_open(p_, mode="r", *a, **k):
+        events.append(("open", str(p_), mode))
+        if any(ch in mode for ch in "wax+"):
+            exists[str(p_)] = tick()
+        elif str(p_) not in exists:
+            raise Raised("FileNotFoundError", str(p_))
+        return Obj("file", path=str(p_), mode=mode)
+    fs_cls = ctx.index.cls("gwf.core:CachedFilesystem")
     hooks.update({
+        "gwf.core.CachedFilesystem": lambda *a, **k: make_instance(ctx, fs_cls, "fs"),
+        "os.path.islink": lambda p_: str(p_) in links, "attr:is_symlink": lambda recv: str(recv) in links,
+        "os.path.isfile": lambda p_: str(p_) in exists, "attr:is_file": lambda recv: str(recv) in exists,
+        "os.path.lexists": lambda p_: str(p_) in exists,
+        "os.path.realpath": lambda p_, **k: ("/shared" + str(p_)) if str(p_) in links else str(p_),
+        "os.readlink": lambda p_: "/shared" + str(p_),
         "attr:exists": h_exists, "attr:changed_at": h_changed, "os.path.exists": lambda p_: h_exists(None, p_), "os.path.getmtime": lambda p_: h_changed(None, p_),
         "attr:has_changed": lambda recv, t: None,
         "pathlib.Path": lambda *a: PathTok("/".join(str(x) for x in a)),
         "getattr:parent": lambda o: PathTok(str(o).rsplit("/", 1)[0] or "/"),
         "attr:mkdir": lambda recv, *a, **k: events.append(("mkdir", str(recv), dict(k))),
-        "attr:touch": lambda recv, *a, **k: events.append(("touch", str(recv), dict(k))),
-        "os.makedirs": lambda p, *a, **k: events.append(("mkdir", str(p), dict(k))),
-        "os.utime": lambda p, *a, **k: events.append(("touch", str(p), {})),
+        "attr:touch": h_touch,
+        "os.makedirs": lambda p, *a, **k: events.append(("mkdir", str(p), {"parents": True, **k})),
+        "os.utime": h_utime,
         "os.path.dirname": lambda p: str(p).rsplit("/", 1)[0],
-        "builtins.open": lambda p, mode="r", *a, **k: (events.append(("open", str(p), mode)), Obj("file", path=str(p), mode=mode))[1],
+        "builtins.open": h_open,
         "gwf.core.get_spec_hashes": lambda *a, **k: (events.append(("open-store",)), store)[1],
         "attr:update": lambda recv, *a, **k: recv.update(*a, **k) if isinstance(recv, (dict, set)) else events.append(("update", a[0].name)),
         "with_exit": lambda v: events.append(("close-store",)) if v is store else None,
     })
     interp = PureInterp(ctx, hooks=hooks)
     interp.max_depth = 30
-    out = {"events": events, "raised": None}
+    out = {"events": events, "raised": None, "disk": exists, "links": links}
+    MODEL_CLOCK[0] = CLOCK
     try:
         call_command(ctx, interp, fn, (ctx_obj(ctx, working_dir="/p", config={}, backend="B"), tuple(targets)))
     except Raised as exc:
-        out["raised"] = exc.kind
+        out["raised"] = f"{exc.kind}: {exc}"[:160]
     except Unsupported as exc:
         return None, f"Unsupported: {exc}"
+    finally:
+        MODEL_CLOCK[0] = CLOCK
     return out, None
 
 
@@ -1940,13 +2157,29 @@ def touch_command_witness(ctx):
             diffs.append(f"`{label}` ends with {out['raised']}")
             continue
         ev = out["events"]
-        touched = [e[1] for e in ev if e[0] == "touch"]
+        touched = sorted({e[1] for e in ev if e[0] == "touch"})
         writes = [e for e in ev if e[0] == "open" and any(ch in e[2] for ch in "wa+x")]
+        from ..symeval import CLOCK as _T0
+        when = out["disk"]
+        lnk = [e for e in ev if e[0] == "stamp-link"]
+        if lnk:
+            diffs.append(f"`{label}`: the output {lnk[0][1]} is a symbolic link and only the link itself is stamped (follow_symlinks=False); modification times are read "
+                         "with os.stat, which follows links, so the target still looks older than its inputs after `gwf touch`")
+            continue
+        old = [e for e in ev if e[0] == "touch" and e[2]["time"] < _T0]
+        if old:
+            diffs.append(f"`{label}` stamps {old[0][1]} with a time {_T0 - old[0][2]['time']:.0f}s before the command started (the modelled machine is {3600}s east of UTC; a naive UTC "
+                         "datetime read as local time, or mktime(gmtime()), is off by that much): an input modified within that span is newer than the touched output")
+            continue
         want = [p for nme in WITNESS_PROJECT if nme in cone for p in WITNESS_PROJECT[nme][1]]
         if disk == "uptodate":
             # touching files that are already in order is allowed, not required - but nothing outside the cone, and the hashes are recorded all the same
             if not set(touched) <= set(want):
                 diffs.append(f"`{label}` touches {sorted(set(touched) - set(want))} outside the cone {sorted(cone)}")
+            for nme in cone:
+                for d in WITNESS_PROJECT[nme][0]:
+                    if WITNESS_PROJECT[d][1] and WITNESS_PROJECT[nme][1] and max(when[p] for p in WITNESS_PROJECT[d][1]) > min(when[p] for p in WITNESS_PROJECT[nme][1]):
+                        diffs.append(f"`{label}`: an output of {d} ends up newer than an output of its dependent {nme}: {nme} looks stale afterwards")
             upd = [e[1] for e in ev if e[0] == "update"]
             if sorted(upd) != sorted(cone):
                 diffs.append(f"`{label}` records the spec hashes of {sorted(upd)}, expected those of the cone {sorted(cone)}: a target whose files are in order is skipped "
@@ -1960,12 +2193,11 @@ def touch_command_witness(ctx):
         for e in ev:
             if e[0] == "touch" and e[2].get("exist_ok") is False:
                 diffs.append(f"`{label}`: touch(exist_ok=False) fails on outputs that already exist")
-        # dependency order: every output of a dependency is touched before any output of its dependent
-        pos = {p: i for i, p in enumerate(touched)}
+        # dependency order, on the final state of the disk: no output of a dependency is newer than an output of its dependent
         for nme in cone:
             for d in WITNESS_PROJECT[nme][0]:
-                if WITNESS_PROJECT[d][1] and WITNESS_PROJECT[nme][1] and max(pos[p] for p in WITNESS_PROJECT[d][1]) > min(pos[p] for p in WITNESS_PROJECT[nme][1]):
-                    diffs.append(f"`{label}`: outputs of {nme} are touched before those of its dependency {d}: {nme} would look stale afterwards")
+                if WITNESS_PROJECT[d][1] and WITNESS_PROJECT[nme][1] and max(when[p] for p in WITNESS_PROJECT[d][1]) > min(when[p] for p in WITNESS_PROJECT[nme][1]):
+                    diffs.append(f"`{label}`: an output of {d} ends up newer than an output of its dependent {nme} (touched or re-touched after it): {nme} looks stale afterwards")
         for i, e in enumerate(ev):
             if e[0] == "touch":
                 parent = e[1].rsplit("/", 1)[0]
